@@ -9,8 +9,8 @@ DECIDES = ('history independence of linalg/_linalg: no function mutates a parame
            'immutable or never mutated/stored by any caller in the package (PU4), no module state is written (PU5) - hence every '
            'result is a function of the arguments alone, for all interleavings of calls; matrix_pivot swaps the permutation and '
            'the matrix with the same index pairs over full rows inside the same guard (PV1); every consumer of a pivoted matrix '
-           'also consumes its permutation or sign (PV2); single-expression identities in polynomial normal form: cross product, '
-           'binomial coefficient, is_left, element-wise vector maps, dot product as accumulated product (AL*).')
+           'also consumes its permutation or sign (PV2) and lu_factor applies P - not its transpose - to the right-hand side (PV3); single-expression identities in polynomial normal form: cross product, '
+           'binomial coefficient, is_left, element-wise vector maps, dot product as accumulated product (AL*); the LU factorisation, pivoting and triangular solves compare no matrix entry with a non-zero literal: they are scale-free (SC1).')
 NOT_DECIDED = ('A x = b, A A^-1 = I, Leibniz determinant for arbitrary matrices, solvability for diagonally dominant / collocation '
                'matrices, floating-point accuracy (e.g. factorial quotients), loop-based helpers other than the accumulator idiom.')
 
@@ -21,7 +21,63 @@ def site(fi, node):
     return 'geomdl/%s.py:%s in %s' % (fi.mod, getattr(node, 'lineno', '?'), fi.key)
 
 
+def sc1(m, run):
+    """the factorisation and the triangular solves are scale-free: A x = b and (cA) x = (cb) have the same solution, so no matrix entry
+    is compared with a non-zero numeric literal (an absolute pivot threshold treats a well-conditioned matrix with small entries as singular)"""
+    names = ('_linalg.doolittle', 'linalg.lu_decomposition', 'linalg.lu_solve', 'linalg.lu_factor', 'linalg.forward_substitution',
+             'linalg.backward_substitution', 'linalg.matrix_inverse', 'linalg.matrix_determinant', 'linalg.matrix_pivot')
+    n = 0
+    for key in names:
+        fi = m.func(key)
+        n += 1
+        bad = None
+        for c in walk_no_nested(fi.node):
+            if isinstance(c, ast.Compare):
+                sides = [c.left] + list(c.comparators)
+                lits = [x for x in sides if isinstance(x, ast.Constant) and isinstance(x.value, (int, float)) and not isinstance(x.value, bool) and x.value != 0]
+                entries = [x for x in sides if any(isinstance(y, ast.Subscript) and isinstance(y.value, ast.Subscript) for y in ast.walk(x))]
+                if lits and entries:
+                    bad = c
+        run.ob('SC1.scale-free', key, bad is None, 'no matrix entry is compared with a non-zero literal' if bad is None else
+               '`%s` compares a matrix entry with an absolute threshold: a non-singular matrix whose entries are below it is treated as singular '
+               '(the result must not depend on the scale of the system)' % norm(bad)[:60], site(fi, bad if bad is not None else fi.node))
+    return n
+
+
+def pv3(m, run, piv):
+    """matrix_pivot returns (P A, P): row i of the pivoted matrix is the row j of A with P[i][j] = 1.  A right-hand side is permuted the
+    same way: P b as the product matrix_multiply(P, b) (P first), or row-wise with the permuted index on the SOURCE side
+    (bp[i] = b[j(i)]); writing b[i] to position j(i) applies the inverse permutation, which differs for cycles longer than 2."""
+    fi = m.func('linalg.lu_factor')
+    ps = params_of(fi.node)
+    rhs = ps[1]
+    pname = None
+    for n in walk_no_nested(fi.node):
+        if isinstance(n, ast.Assign) and isinstance(n.value, ast.Call) and m.resolve_callable(fi.mod, n.value.func) is piv and isinstance(n.targets[0], ast.Tuple):
+            pname = n.targets[0].elts[1].id if len(n.targets[0].elts) > 1 and isinstance(n.targets[0].elts[1], ast.Name) else None
+    if pname is None:
+        raise AnalysisError('lu_factor: permutation matrix of matrix_pivot not bound')
+    verdict = None
+    where = fi.node
+    for n in walk_no_nested(fi.node):
+        if isinstance(n, ast.Call) and norm(n.func).endswith('matrix_multiply') and len(n.args) == 2 and {norm(a) for a in n.args} == {pname, rhs}:
+            verdict = (norm(n.args[0]) == pname, 'matrix_multiply(%s, %s)' % (norm(n.args[0]), norm(n.args[1])))
+            where = n
+        if isinstance(n, ast.Assign) and isinstance(n.targets[0], ast.Subscript) and isinstance(n.value, ast.Subscript) and norm(n.value.value) == rhs:
+            t_uses = any(isinstance(x, ast.Name) and x.id == pname for x in ast.walk(n.targets[0].slice))
+            s_uses = any(isinstance(x, ast.Name) and x.id == pname for x in ast.walk(n.value.slice))
+            if t_uses or s_uses:
+                verdict = (s_uses and not t_uses, norm(n)[:70])
+                where = n
+    if verdict is None:
+        raise AnalysisError('lu_factor: application of the permutation to the right-hand side not recognised')
+    run.ob('PV3.rhs-permuted-like-the-matrix', fi.key, verdict[0], '%s applies P to the right-hand side' % verdict[1] if verdict[0] else
+           '`%s` applies the transpose (inverse) of the permutation to the right-hand side: correct for single swaps only, wrong whenever pivoting '
+           'produces a cycle of three or more rows' % verdict[1], site(fi, where))
+
+
 def check(m, run):
+    sc1(m, run)
     P = Purity(m)
     funcs = [fi for mod in MODS for fi in m.functions_in(mod) if fi.kind == 'function']
     if len(funcs) < 30:
@@ -88,6 +144,7 @@ def check(m, run):
                            'permuted system, e.g. the right-hand side is never permuted' % (names[0], companions) if not ok else
                            'permuted matrix used together with %s' % used_c, site(fi, n))
     run.floor('PV2.pivot-companion', 3, 'matrix_inverse, matrix_determinant, lu_factor')
+    pv3(m, run, piv)
     # ---------------------------------------------------------------- AL identities
     check_cross(m, run)
     check_binomial(m, run)
